@@ -63,6 +63,7 @@ retry_find_border:
          * @a root is the root node of the some layer, but it was deleted.
          * So it must retry from root of the all tree.
          */
+        YAKUSHIMA_VERIF_HOOK(YAKUSHIMA_VERIF_RETRY, nullptr);
         goto retry_from_root; // NOLINT
     }
     constexpr std::size_t tuple_node_index = 0;
@@ -84,6 +85,7 @@ retry_fetch_lv:
          * The correct border was changed between atomically fetching border node and
          * atomically fetching lv.
          */
+        YAKUSHIMA_VERIF_HOOK(YAKUSHIMA_VERIF_RETRY, nullptr);
         goto retry_from_root; // NOLINT
     }
     if (lv_ptr == nullptr) {
@@ -100,10 +102,12 @@ retry_fetch_lv:
         node_version64_body final_check = target_border->get_stable_version();
         if (final_check.get_vsplit() != v_at_fb.get_vsplit() ||
             (final_check.get_deleted() && !final_check.get_root())) {
+            YAKUSHIMA_VERIF_HOOK(YAKUSHIMA_VERIF_RETRY, nullptr);
             goto retry_from_root; // NOLINT
         }
         if (final_check.get_vinsert_delete() !=
             v_at_fetch_lv.get_vinsert_delete()) {
+            YAKUSHIMA_VERIF_HOOK(YAKUSHIMA_VERIF_RETRY, nullptr);
             goto retry_fetch_lv; // NOLINT
         }
         out = std::make_pair(v_body, value::get_len(vp));
@@ -114,10 +118,12 @@ retry_fetch_lv:
     node_version64_body final_check = target_border->get_stable_version();
     if (final_check.get_vsplit() != v_at_fb.get_vsplit() ||
         (final_check.get_deleted() && !final_check.get_root())) {
+        YAKUSHIMA_VERIF_HOOK(YAKUSHIMA_VERIF_RETRY, nullptr);
         goto retry_from_root; // NOLINT
     }
     if (final_check.get_vinsert_delete() !=
         v_at_fetch_lv.get_vinsert_delete()) {
+        YAKUSHIMA_VERIF_HOOK(YAKUSHIMA_VERIF_RETRY, nullptr);
         goto retry_fetch_lv; // NOLINT
     }
     if (root == nullptr) {
